@@ -344,6 +344,8 @@ loop 0
 
 
 // ---------------------------------------------------------------- Turbine: which tree a shred travels on
+/*@ extract src/disseminator/turbine.rs :: const DEFAULT_FANOUT
+@*/
 /*@ extract src/disseminator/turbine.rs :: const MAX_CACHED_TREES
 @*/
 /*@ extract src/disseminator/turbine.rs :: struct TurbineTree
